@@ -286,6 +286,12 @@ func driveC14(g *sim.G, exec func(*sim.Op) *Viol) *Viol {
 			if v := exec(cloneOp(cand).WithFault(ords...)); v != nil {
 				return v
 			}
+			// the same plan with the last failing call panicking (a dependency that runs out of gas)
+			pan := append([]int{}, ords...)
+			pan[len(pan)-1] += chain.PanicFaultBase
+			if v := exec(cloneOp(cand).WithFault(pan...).WithMeta("panic", "1")); v != nil {
+				return v
+			}
 		}
 		if v := exec(cloneOp(cand).WithMeta("after-faults", fmt.Sprint(1<<nc-1))); v != nil {
 			return v
